@@ -218,24 +218,24 @@ func (r *Report) Finish() int {
 	sort.Strings(r.Analysed)
 	r.Analysed = uniq(r.Analysed)
 	cov := map[string]any{
-		"explanation":      r.Explanation,
-		"obligations":      len(r.Obs),
-		"discharged":       nOK,
-		"undecided":        nUndec,
-		"known_findings":   nKnown,
-		"programs":         len(r.Analysed),
-		"analysed":         r.Analysed,
-		"rules":            r.Rules,
-		"floors":           r.Floors,
-		"instance_counts":  r.Counts,
-		"samples":          samples,
-		"all_obligations":  r.Obs,
-		"trusted_base":     r.Trusted,
-		"not_decided":      r.NotDecided,
-		"checker_cmd":      fmt.Sprintf("./bin/sa check %s --tier %s", r.Property, r.Tier),
-		"exhaustive":       true,
-		"rule":             "every obligation instance (rule x construct) found by the analyser in the current working tree is enumerated; an instance is distinct by (rule, construct)",
-		"evaluations":      len(r.Obs),
+		"explanation":         r.Explanation,
+		"obligations":         len(r.Obs),
+		"discharged":          nOK,
+		"undecided":           nUndec,
+		"known_findings":      nKnown,
+		"programs":            len(r.Analysed),
+		"analysed":            r.Analysed,
+		"rules":               r.Rules,
+		"floors":              r.Floors,
+		"instance_counts":     r.Counts,
+		"samples":             samples,
+		"all_obligations":     r.Obs,
+		"trusted_base":        r.Trusted,
+		"not_decided":         r.NotDecided,
+		"checker_cmd":         fmt.Sprintf("./bin/sa check %s --tier %s", r.Property, r.Tier),
+		"exhaustive":          true,
+		"rule":                "every obligation instance (rule x construct) found by the analyser in the current working tree is enumerated; an instance is distinct by (rule, construct)",
+		"evaluations":         len(r.Obs),
 		"distinct_nontrivial": distinct(r.Obs),
 	}
 	if r.Prog != nil {
